@@ -5,8 +5,10 @@
 */
 #include "env_pre.h"
 #include <math.h>
+#ifndef NATIVE_REPLAY	/* the native replay runs on the real libm */
 #define frexp(x, e)		verif_frexp ((x), (e))
 #define pow(b, e)		verif_pow2 ((b), (e))
+#endif
 double verif_frexp (double x, int *e) ;
 double verif_pow2 (double b, double e) ;
 #include "float32.c"
@@ -31,7 +33,7 @@ double verif_pow2 (double b, double e)
 #define IS_NORMAL_BITS(u)	((((u) >> 23) & 0xff) != 0 && (((u) >> 23) & 0xff) != 0xff)
 
 void h_f32_write (void)
-{	union { float f ; uint32_t u ; unsigned char b [4] ; } x ; uint32_t nd ; x.u = nd ;
+{	union { float f ; uint32_t u ; unsigned char b [4] ; } x ; INPUT (uint32_t, nd) ; x.u = nd ;
 	__CPROVER_assume (IS_NORMAL_BITS (x.u)) ;
 	unsigned char le [4], be [4] ;
 	float32_le_write (x.f, le) ;
@@ -42,7 +44,7 @@ void h_f32_write (void)
 }
 
 void h_f32_read (void)
-{	union { float f ; uint32_t u ; unsigned char b [4] ; } x ; uint32_t nd ; x.u = nd ;
+{	union { float f ; uint32_t u ; unsigned char b [4] ; } x ; INPUT (uint32_t, nd) ; x.u = nd ;
 	__CPROVER_assume (IS_NORMAL_BITS (x.u)) ;
 	unsigned char be [4] = { x.b [3], x.b [2], x.b [1], x.b [0] } ;
 	union { float f ; uint32_t u ; } rl, rb ;
